@@ -5,7 +5,7 @@ from props.common import gen_strategy, quiet_logging, Violations
 from worlds.full import FullWorld, default_cluster_spec
 
 ID = 'C24'
-TIERS = {'quick': {'runs': 2500, 'budget_s': 55, 'wall_cap': 150, 'block': 40},
+TIERS = {'quick': {'runs': 7500, 'budget_s': 55, 'wall_cap': 150, 'block': 40},
          'thorough': {'runs': 200000, 'budget_s': 840, 'wall_cap': 300, 'block': 20}}
 SHRINK_LISTS = []
 COVERAGE_RULE = ('one run = real Cluster with ConstantReconnectionPolicy(delay, max_attempts) or '
